@@ -58,7 +58,7 @@ package doccomposer
 //@   requires doc != nil
 //@   modifies mapcontent(doc)
 //@   hide document.ParsePublicKeys[nonlist, all]
-//@   hide sliceToMapPK[members, contains]
+//@   hide sliceToMapPK[members]
 //@   let K := document.ParsePublicKeys(doc["publicKey"])
 //@   let A := document.ParsePublicKeys(entry)
 //@   let M := sliceToMapPK(K)
@@ -78,9 +78,10 @@ package doccomposer
 //@   loop 0 invariant [apart] uses [own, len] newPublicKeys == nil || (!sameArray(newPublicKeys, K) && !sameArray(newPublicKeys, A))
 //@   loop 0 invariant [len] uses [] $k <= len(A) && existingPublicKeysMap == M && len(newPublicKeys) >= len(K)
 //@   loop 0 invariant [ids] uses [apart, len] forall i int :: 0 <= i && i < len(K) ==> document.strEntry(newPublicKeys[i], "id") == document.strEntry(K[i], "id")
+//@   loop 0 invariant [mapped] uses [apart, len] forall i int :: 0 <= i && i < len(K) ==> has(M, document.strEntry(K[i], "id"))
 //@   loop 0 invariant [origin] uses [apart, len, ids] forall i int :: 0 <= i && i < len(K) ==> newPublicKeys[i] == K[i] ||
 //@        (exists a int :: 0 <= a && a < $k && newPublicKeys[i] == A[a] && document.strEntry(A[a], "id") == document.strEntry(K[i], "id"))
-//@   loop 0 invariant [replaced] uses [apart, len, ids] forall i int, a int :: 0 <= i && i < len(K) && 0 <= a && a < $k && document.strEntry(A[a], "id") == document.strEntry(K[i], "id") ==>
+//@   loop 0 invariant [replaced] uses [apart, len, ids, mapped] forall i int, a int :: 0 <= i && i < len(K) && 0 <= a && a < $k && document.strEntry(A[a], "id") == document.strEntry(K[i], "id") ==>
 //@        (exists b int :: 0 <= b && b < $k && newPublicKeys[i] == A[b] && document.strEntry(A[b], "id") == document.strEntry(K[i], "id"))
 //@   loop 0 invariant [appended] uses [apart, len, tail] forall a int :: 0 <= a && a < $k && !has(M, document.strEntry(A[a], "id")) ==>
 //@        (exists n int :: len(K) <= n && n < len(newPublicKeys) && newPublicKeys[n] == A[a])
@@ -121,7 +122,7 @@ package doccomposer
 //@   requires doc != nil
 //@   modifies mapcontent(doc)
 //@   hide document.ParseServices[nonlist, all]
-//@   hide sliceToMapServices[members, contains]
+//@   hide sliceToMapServices[members]
 //@   let K := document.ParseServices(doc["service"])
 //@   let A := document.ParseServices(entry)
 //@   let M := sliceToMapServices(K)
@@ -141,9 +142,10 @@ package doccomposer
 //@   loop 0 invariant [apart] uses [own, len] newServices == nil || (!sameArray(newServices, K) && !sameArray(newServices, A))
 //@   loop 0 invariant [len] uses [] $k <= len(A) && existingServicesMap == M && len(newServices) >= len(K)
 //@   loop 0 invariant [ids] uses [apart, len] forall i int :: 0 <= i && i < len(K) ==> document.strEntry(newServices[i], "id") == document.strEntry(K[i], "id")
+//@   loop 0 invariant [mapped] uses [apart, len] forall i int :: 0 <= i && i < len(K) ==> has(M, document.strEntry(K[i], "id"))
 //@   loop 0 invariant [origin] uses [apart, len, ids] forall i int :: 0 <= i && i < len(K) ==> newServices[i] == K[i] ||
 //@        (exists a int :: 0 <= a && a < $k && newServices[i] == A[a] && document.strEntry(A[a], "id") == document.strEntry(K[i], "id"))
-//@   loop 0 invariant [replaced] uses [apart, len, ids] forall i int, a int :: 0 <= i && i < len(K) && 0 <= a && a < $k && document.strEntry(A[a], "id") == document.strEntry(K[i], "id") ==>
+//@   loop 0 invariant [replaced] uses [apart, len, ids, mapped] forall i int, a int :: 0 <= i && i < len(K) && 0 <= a && a < $k && document.strEntry(A[a], "id") == document.strEntry(K[i], "id") ==>
 //@        (exists b int :: 0 <= b && b < $k && newServices[i] == A[b] && document.strEntry(A[b], "id") == document.strEntry(K[i], "id"))
 //@   loop 0 invariant [appended] uses [apart, len, tail] forall a int :: 0 <= a && a < $k && !has(M, document.strEntry(A[a], "id")) ==>
 //@        (exists n int :: len(K) <= n && n < len(newServices) && newServices[n] == A[a])
